@@ -73,7 +73,7 @@ ASSUMPTIONS = [
     "off-diagonal tensor entries (j,k) of axis-aligned poles are claimed to be 0 at the frequencies where row j's own model is finite (the code evaluates 0/denominator_j there)",
     "the asymptotic clause (relative error O((omega dt)^2) of the recurrence's own frequency response) is NOT covered",
 ]
-MIN_OBLIGATIONS = {"quick": 150, "thorough": 400}
+MIN_OBLIGATIONS = {"quick": 1000, "thorough": 3000}
 LEVEL_TEXT = (
     "Deductive proof, for all pole parameters, time steps and frequencies in the stated domain, that the real inverse mapping applied to the real "
     "coefficient functions returns the declared Lorentz / Drude / CCPR / critical-point susceptibility (per-axis, scalar, tensor and oriented variants, "
@@ -577,6 +577,10 @@ def _zero_padding(num_components, coupling_components):
 # ---------------------------------------------------------------------------------------
 
 
+# every task of the unchanged tree has <= 8 decision paths (class forks); a code change that makes the
+# activity / mask decisions explode is reported (refutations found so far + undecided) instead of looping
+MAX_PATHS = 32
+
 _LETTERS = {"lorentz": "AI", "drude": "AI", "ccpr": "GLI", "critical_point": "GLI"}
 
 
@@ -598,21 +602,21 @@ def tasks(tier, seed):
     for kind in ("lorentz", "drude", "ccpr", "critical_point"):
         sets = _class_sets(kind, tier)
         for cls in sets:
-            out[f"per_axis/{kind}/{cls}"] = Task(_per_axis(kind, cls, "per_axis"), extra_patch=_PATCH)
+            out[f"per_axis/{kind}/{cls}"] = Task(_per_axis(kind, cls, "per_axis"), extra_patch=_PATCH, max_paths=MAX_PATHS)
             if kind != "critical_point" and (tier == "thorough" or cls in sets[:2]):
-                out[f"tensor/{kind}/{cls}"] = Task(_per_axis(kind, cls, "tensor"), extra_patch=_PATCH)
+                out[f"tensor/{kind}/{cls}"] = Task(_per_axis(kind, cls, "tensor"), extra_patch=_PATCH, max_paths=MAX_PATHS)
         for x in _LETTERS[kind]:
-            out[f"scalar/{kind}/{x * 3}"] = Task(_per_axis(kind, x * 3, "scalar"), extra_patch=_PATCH)
+            out[f"scalar/{kind}/{x * 3}"] = Task(_per_axis(kind, x * 3, "scalar"), extra_patch=_PATCH, max_paths=MAX_PATHS)
     patterns = ["sss", "s0s", "00s"] if tier == "quick" else ["sss", "ss0", "s0s", "0ss", "s00", "0s0", "00s"]
     for kind in ("lorentz", "drude", "ccpr"):
         for pat in patterns if kind == "lorentz" or tier == "thorough" else patterns[:1]:
-            out[f"oriented/{kind}/{pat}"] = Task(_oriented(kind, pat), extra_patch=_PATCH)
+            out[f"oriented/{kind}/{pat}"] = Task(_oriented(kind, pat), extra_patch=_PATCH, max_paths=MAX_PATHS)
     out["jury_theorem"] = Task(_jury_theorem)
-    out["oriented/negative_coupling_rejected"] = Task(_oriented_negative_coupling, extra_patch=_PATCH)
-    out["sum/lorentz+drude"] = Task(_sum_of_poles("lorentz+drude"), extra_patch=_PATCH)
-    out["sum/lorentz+ccpr"] = Task(_sum_of_poles("lorentz+ccpr"), extra_patch=_PATCH)
+    out["oriented/negative_coupling_rejected"] = Task(_oriented_negative_coupling, extra_patch=_PATCH, max_paths=MAX_PATHS)
+    out["sum/lorentz+drude"] = Task(_sum_of_poles("lorentz+drude"), extra_patch=_PATCH, max_paths=MAX_PATHS)
+    out["sum/lorentz+ccpr"] = Task(_sum_of_poles("lorentz+ccpr"), extra_patch=_PATCH, max_paths=MAX_PATHS)
     for nc, cc in ((1, 1), (3, 3), (3, 9)):
-        out[f"zero_padding/components{nc}_{cc}"] = Task(_zero_padding(nc, cc), extra_patch=_PATCH)
+        out[f"zero_padding/components{nc}_{cc}"] = Task(_zero_padding(nc, cc), extra_patch=_PATCH, max_paths=MAX_PATHS)
     return out
 
 
@@ -690,7 +694,21 @@ def replay(key, obligation, witness):
         for a in range(3):
             roots = np.roots([1.0, -c1[0, a], -c2[0, a]])
             worst_root = max(worst_root, float(np.max(np.abs(roots))))
-        details.append(f"attempt {attempt}: kind={kind} dt={dt:.4g} omega={om:.4g}: |chi_from_coefficients-declared|={err:.3e}, |model.susceptibility_axes-declared|={err_own:.3e}, max|root|={worst_root:.12f}")
+        # tensor variant and the per-material (zero padded) coefficient table
+        t1, t2, t3, t4 = D.compute_pole_coefficients_tensor((pole,), dt)
+        chi9 = np.asarray(D.susceptibility_from_coefficients(t1, t2, t3, om, dt, t4))
+        err_t = max(abs(chi9[3 * j + k] - (decl[j] if j == k else 0.0)) / max(1.0, abs(decl[j])) for j in range(3) for k in range(3))
+        import fdtdx
+        import fdtdx.materials as M
+
+        mats = {"plain": fdtdx.Material(permittivity=2.0), "disp": fdtdx.Material(permittivity=3.0, dispersion=D.DispersionModel(poles=(pole,)))}
+        a1, a2, a3, a4 = M.compute_allowed_dispersive_coefficients(mats, dt, 2, 3, 3)
+        err_pad = 0.0
+        for m_idx, want_chi in ((0, [0.0, 0.0, 0.0]), (1, decl)):
+            chi_m = np.asarray(D.susceptibility_from_coefficients(a1[m_idx], a2[m_idx], a3[m_idx], om, dt, a4[m_idx]))
+            err_pad = max(err_pad, max(abs(chi_m[a] - want_chi[a]) / max(1.0, abs(want_chi[a])) for a in range(3)))
+        err = max(err, err_t, err_pad)
+        details.append(f"attempt {attempt}: kind={kind} dt={dt:.4g} omega={om:.4g}: |chi_from_coefficients-declared|={err:.3e} (tensor variant {err_t:.3e}, material table {err_pad:.3e}), |model.susceptibility_axes-declared|={err_own:.3e}, max|root|={worst_root:.12f}")
         if err > 1e-8 or err_own > 1e-8 or worst_root > 1 + 1e-9:
             return True, "real code deviates from the declared pole model:\n" + "\n".join(details)
     return False, "\n".join(details)
